@@ -20,6 +20,10 @@ use yui::poly::Mono;
 trait Dump {
     /// terms (eH, eT, integer coefficient); None if a coefficient is not integral
     fn terms(&self) -> Option<Vec<(usize, usize, i64)>>;
+    /// terms (eH, eT, numerator, denominator > 0)
+    fn rterms(&self) -> Vec<(usize, usize, i64, i64)> {
+        self.terms().expect("integral").into_iter().map(|(a, b, c)| (a, b, c, 1)).collect()
+    }
 }
 impl Dump for i64 {
     fn terms(&self) -> Option<Vec<(usize, usize, i64)>> { Some(vec![(0, 0, *self)]) }
@@ -28,6 +32,7 @@ impl Dump for Ratio<i64> {
     fn terms(&self) -> Option<Vec<(usize, usize, i64)>> {
         if *self.denom() == 1 { Some(vec![(0, 0, *self.numer())]) } else { None }
     }
+    fn rterms(&self) -> Vec<(usize, usize, i64, i64)> { vec![(0, 0, *self.numer(), *self.denom())] }
 }
 impl<const P: i32> Dump for FF<P> {
     fn terms(&self) -> Option<Vec<(usize, usize, i64)>> { Some(vec![(0, 0, *self.rep() as i64)]) }
@@ -39,6 +44,13 @@ impl<S: Dump + Ring> Dump for Poly<'H', S> where for<'x> &'x S: RingOps<S> {
             for (_, _, c) in a.terms()? { v.push((x.deg(), 0, c)); }
         }
         Some(v)
+    }
+    fn rterms(&self) -> Vec<(usize, usize, i64, i64)> {
+        let mut v = vec![];
+        for (x, a) in self.iter() {
+            for (_, _, c, d) in a.rterms() { v.push((x.deg(), 0, c, d)); }
+        }
+        v
     }
 }
 impl<S: Dump + Ring> Dump for Poly<'T', S> where for<'x> &'x S: RingOps<S> {
@@ -79,6 +91,53 @@ where R: Ring + Dump, for<'x> &'x R: RingOps<R> {
         levels.push(format!("{} | {}", qs.join(" "), es.join(" , ")));
     }
     Some((i0, levels.join(" # ")))
+}
+
+fn gcd128(a: i128, b: i128) -> i128 { if b == 0 { a.abs() } else { gcd128(b, a % b) } }
+
+/// the same dump with every matrix multiplied by the least common denominator of its coefficients (a non-zero
+/// constant per matrix: d.d = 0 and homogeneity are unchanged), for rational coefficient rings
+fn dump_scaled<R>(c: &KhComplex<R>) -> Option<(isize, String)>
+where R: Ring + Dump, for<'x> &'x R: RingOps<R> {
+    let range = c.h_range();
+    let (i0, i1) = (*range.start(), *range.end());
+    let mut levels = vec![];
+    for i in i0..=i1 {
+        let qs: Vec<String> = c[i].raw_gens().iter().map(|x| x.q_deg().to_string()).collect();
+        let d = c.d_matrix(i);
+        let mut l: i128 = 1;
+        for (_, _, a) in d.iter() {
+            for (_, _, _, den) in a.rterms() { let den = den as i128; l = l / gcd128(l, den) * den; if l > (1i128 << 100) { return None; } }
+        }
+        let mut es = vec![];
+        for (r, cc, a) in d.iter() {
+            if a.is_zero() { continue; }
+            let ts: Vec<String> = a.rterms().iter().map(|(eh, et, n, den)| format!("{}*{}*{}", (*n as i128) * (l / (*den as i128)), eh, et)).collect();
+            es.push(format!("{} {} {}", r, cc, ts.join("+")));
+        }
+        levels.push(format!("{} | {}", qs.join(" "), es.join(" , ")));
+    }
+    Some((i0, levels.join(" # ")))
+}
+
+fn emit_cx_scaled<R>(o: &mut Out, gr: bool, l: &Link, h: &R, t: &R, red: bool)
+where R: Ring + Dump, for<'x> &'x R: RingOps<R> {
+    match guarded(|| dump_scaled(&KhComplex::new(l, h, t, red))) {
+        Some(Some((_, s))) => o.case(&format!("cx 0 {} ; {}", gr as u8, s), "OK"),
+        Some(None) => {}
+        None => o.case(&format!("cx 0 {} ; PANIC {}", gr as u8, link_str(l)), "PANIC-IN-IMPL"),
+    }
+}
+
+fn parse_json_code(s: &str) -> Option<PD> {
+    let nums: Vec<usize> = s.split(|c: char| !c.is_ascii_digit()).filter(|x| !x.is_empty()).map(|x| x.parse().ok()).collect::<Option<Vec<_>>>()?;
+    if nums.len() % 4 != 0 { return None; }
+    Some(nums.chunks(4).map(|c| [c[0], c[1], c[2], c[3]]).collect())
+}
+fn resource(name: &str) -> Option<PD> {
+    let repo = std::env::var("VERIF_REPO").unwrap_or("/repo".into());
+    let s = std::fs::read_to_string(format!("{}/yui-link/resources/links/{}.json", repo, name)).ok()?;
+    parse_json_code(&s)
 }
 
 fn emit_cx<R>(o: &mut Out, m: i64, gr: bool, l: &Link, h: &R, t: &R, red: bool)
@@ -126,6 +185,13 @@ fn main() {
             let hopf: PD = vec![[4, 1, 3, 2], [2, 3, 1, 4]];
             links.push(Link::from_pd_code(split_union(&tre, &hopf)));
             links.push(Link::from_pd_code(add_kink(&tre, 0, 0)));
+            // knots / links on which elimination pivots with non-trivial units and products of non-constant
+            // coefficients occur (PD codes read from the repository's resources, generator-side parser)
+            let extra: &[&str] = if thorough { &["6_2", "6_3", "7_4", "7_7", "8_19", "8_20", "L6a4", "L7n1", "9_42"] }
+                                 else { &["6_2", "7_4", "8_19", "L6a4"] };
+            for n in extra {
+                if let Some(pd) = resource(n) { links.push(Link::from_pd_code(pd)); }
+            }
             let nb = if thorough { 60 } else { 16 };
             for _ in 0..nb {
                 let s = 2 + r.below(3) as usize;
@@ -146,12 +212,19 @@ fn main() {
                 for red in [false, true] {
                     if red && l.is_empty() { continue; }
                     // numeric parameters
-                    for (h, t) in [(0i64, 0i64), (1, 0), (0, 1), (2, 3)] {
+                    for (h, t) in [(0i64, 0i64), (1, 0), (0, 1), (2, 3), (2, 0), (3, 0), (1, 1), (0, 2)] {
                         if red && t != 0 { continue; }
+                        if (h, t) == (2, 0) || (h, t) == (3, 0) || (h, t) == (1, 1) || (h, t) == (0, 2) {
+                            // rational complexes only (units other than +-1 act in the elimination): every matrix is
+                            // scaled to integers and checked by the Coq checker
+                            emit_cx_scaled::<Ratio<i64>>(&mut o, false, l, &Ratio::from(h), &Ratio::from(t), red);
+                            emit_cx::<FF<5>>(&mut o, 5, false, l, &FF::<5>::new(h as i32), &FF::<5>::new(t as i32), red);
+                            continue;
+                        }
                         emit_cx::<i64>(&mut o, 0, h == 0 && t == 0, l, &h, &t, red);
                         emit_cx::<FF<2>>(&mut o, 2, h % 2 == 0 && t % 2 == 0, l, &FF::<2>::new(h as i32), &FF::<2>::new(t as i32), red);
                         emit_cx::<FF<3>>(&mut o, 3, h % 3 == 0 && t % 3 == 0, l, &FF::<3>::new(h as i32), &FF::<3>::new(t as i32), red);
-                        emit_cx::<Ratio<i64>>(&mut o, 0, h == 0 && t == 0, l, &Ratio::from(h), &Ratio::from(t), red);
+                        emit_cx_scaled::<Ratio<i64>>(&mut o, h == 0 && t == 0, l, &Ratio::from(h), &Ratio::from(t), red);
                         let c = format!("rc Q {} ; {} {} ; {}", red as u8, h, t, link_str(l));
                         let res = rust_check::<Ratio<i64>>(l, &Ratio::from(h), &Ratio::from(t), red, 0, 0);
                         o.case(&c, &res);
@@ -159,7 +232,7 @@ fn main() {
                     // polynomial parameters
                     emit_cx::<ZH>(&mut o, 0, true, l, &ZH::variable(), &ZH::zero(), red);
                     emit_cx::<F2H>(&mut o, 2, true, l, &F2H::variable(), &F2H::zero(), red);
-                    emit_cx::<QH>(&mut o, 0, true, l, &QH::variable(), &QH::zero(), red);
+                    emit_cx_scaled::<QH>(&mut o, true, l, &QH::variable(), &QH::zero(), red);
                     let c = format!("rc QH {} ; {}", red as u8, link_str(l));
                     let res = rust_check::<QH>(l, &QH::variable(), &QH::zero(), red, -2, -4);
                     o.case(&c, &res);
